@@ -135,7 +135,8 @@ theorem arguments_sound {reg : Reg} (hreg : RegOK reg) (fuel : Nat) (vars : List
       · cases h
       · rename_i r hr
         have ih' := ih r ⟨fun d' hd' => hok.wf d' (List.mem_cons_of_mem _ hd'),
-                          fun d' hd' => hok.defaultsConform d' (List.mem_cons_of_mem _ hd')⟩
+                          fun d' hd' => hok.defaultsConform d' (List.mem_cons_of_mem _ hd'),
+                          (List.nodup_cons.1 (by simpa using hok.pyNamesDistinct)).2⟩
                         (fun d' hd' => hfit d' (List.mem_cons_of_mem _ hd')) hr
         have hs := coerceArg_sound hreg (hok.wf d List.mem_cons_self) (hok.defaultsConform d List.mem_cons_self)
           (hfit d List.mem_cons_self) o ho
